@@ -3,6 +3,8 @@ import itertools
 import os
 import warnings
 
+from hypothesis import strategies as st
+
 import odml
 from odml.tools.odmlparser import ODMLReader, ODMLWriter
 from odml.tools.parser_utils import RDF_CONVERSION_FORMATS, ParserException
@@ -114,6 +116,10 @@ def call(doc, backend, sub, entry, fault, path):
 
 
 def run_cell(cell, spec):
+    return attempt(cell, lambda: make_doc(spec, cell[0], cell[1]))
+
+
+def attempt(cell, maker):
     route, fault, backend, sub, target, entry = cell
     fails = []
     d = env.fresh_dir("c07")
@@ -122,7 +128,7 @@ def run_cell(cell, spec):
     path = os.path.join(d, "out" + ext)
     derived = path + RDF_CONVERSION_FORMATS.get(sub, "") if backend == "RDF" else None
     try:
-        doc, expect_error = make_doc(spec, route, fault)
+        doc, expect_error = maker()
         if target == "present":
             with open(path, "wb") as fh:
                 fh.write(SENTINEL)
@@ -197,6 +203,112 @@ def _strip_unc(image):
     return out
 
 
+# ------------------------------------------------------------------------------------
+# validation errors placed anywhere in a generated tree
+
+PLACED = ["type_cleared", "type_empty", "duplicate_ids", "duplicate_section_names", "duplicate_property_names",
+          "linked_type_cleared", "merged_type_cleared"]
+
+
+def placed_cases():
+    return st.fixed_dictionaries({
+        "doc": S.doc_spec(max_depth=3, max_secs=3, max_props=2, text_classes=["plain"]),
+        "error": st.sampled_from(PLACED),
+        "i": st.integers(0, 40), "j": st.integers(0, 40),
+        "fmt": st.integers(0, len(FORMATS) - 1),
+        "entry": st.sampled_from(["odml_save", "odmlwriter"]),
+        "target": st.sampled_from(TARGETS),
+    })
+
+
+def make_placed(case, notes):
+    doc = build.build_doc(case["doc"])
+    holder = odml.Section(name="c07-holder", type="holder-type", parent=doc)
+    odml.Property(name="c07-prop", values=["v1", "v2"], parent=holder)
+    inner = odml.Section(name="c07-inner", type="t", parent=holder)
+    odml.Property(name="c07-inner-prop", values=[1], parent=inner)
+    secs = list(doc.itersections())
+    props = list(doc.iterproperties())
+    i, j, error = case["i"], case["j"], case["error"]
+
+    def depth(o):
+        n = 0
+        while o.parent is not None:
+            o = o.parent
+            n += 1
+        return n
+    if error in ("type_cleared", "type_empty"):
+        sec = secs[i % len(secs)]
+        sec.type = None if error == "type_cleared" else ""
+        notes.append("depth:%d" % depth(sec))
+    elif error == "duplicate_ids":
+        objs = secs + props
+        a = objs[i % len(objs)]
+        b = objs[j % len(objs)]
+        if b is a:
+            b = objs[(j + 1) % len(objs)]
+        b.new_id(a.id)
+        first, second = (a, b) if objs.index(a) < objs.index(b) else (b, a)
+        anc = second
+        related = False
+        while anc is not None:
+            if anc is first or anc is first.parent:
+                related = True
+            anc = anc.parent
+        notes.append("depth:%d+%d" % (depth(a), depth(b)))
+        notes.append("dupids:" + ("ancestor_or_sibling" if related else "across_branches"))
+    elif error == "duplicate_section_names":
+        conts = [doc] + secs
+        cont = [c for c in conts if len(c.sections)][i % len([c for c in conts if len(c.sections)])]
+        kid = cont.sections[j % len(cont.sections)]
+        # no container method admits duplicates any more; the child lists themselves still do
+        twin = odml.Section(name=kid.name, type=kid.type)
+        list.insert(cont.sections, j % (len(cont.sections) + 1), twin)
+        twin._parent = cont
+        notes.append("depth:%d" % (depth(kid)))
+    elif error == "duplicate_property_names":
+        conts = [c for c in secs if len(c.properties)]
+        cont = conts[i % len(conts)]
+        kid = cont.properties[j % len(cont.properties)]
+        twin = odml.Property(name=kid.name, values=[1])
+        list.insert(cont.properties, j % (len(cont.properties) + 1), twin)
+        twin._parent = cont
+        notes.append("depth:%d" % (depth(kid)))
+    else:
+        target = secs[i % len(secs)]
+        cont = ([doc] + secs)[j % (len(secs) + 1)]
+        node = cont
+        while node is not None and node is not doc:
+            if node is target:
+                cont = doc     # a Section cannot link to one of its own ancestors
+            node = node.parent
+        lk = odml.Section(name="c07-linking", type=target.type, parent=cont)
+        if error == "linked_type_cleared":
+            lk.link = target.get_path()
+        else:
+            lk.merge(target.clone())
+        lk.type = None
+        notes.append("depth:%d" % depth(lk))
+        notes.append("merged_flag:%s" % bool(lk.is_merged))
+    return doc, True
+
+
+def placed_body(case):
+    backend, sub = FORMATS[case["fmt"]]
+    cell = ("placed:" + case["error"], "none", backend, sub, case["target"], case["entry"])
+    notes = []
+    try:
+        raised, fails = attempt(cell, lambda: make_placed(case, notes))
+    except _Unplaceable:
+        return False, ["placed:unplaceable"], []
+    return (raised is not None and case["target"] == "present"), \
+        ["placed:" + case["error"], "format:%s/%s" % (backend, sub)] + ["placed:" + n for n in notes], fails
+
+
+class _Unplaceable(Exception):
+    pass
+
+
 def doc_pool(seed, n):
     pool = []
 
@@ -212,10 +324,14 @@ def doc_pool(seed, n):
 
 def plan(tier):
     ndocs = 2 if tier == "quick" else 40
-    return [{"name": "table%d" % i, "i": i, "of": 16, "docs": ndocs} for i in range(16)]
+    return [{"name": "table%d" % i, "i": i, "of": 16, "docs": ndocs} for i in range(16)] + \
+        [{"name": "placed%d" % i, "type": "placed", "n": 120 if tier == "quick" else 1500} for i in range(8)]
 
 
 def run(shard, seed, ctx):
+    if shard.get("type") == "placed":
+        hyp.drive(ctx, "placed", placed_cases(), placed_body, shard["n"], seed)
+        return
     pool = doc_pool(seed, shard["docs"])
     for j, cell in enumerate(cells()):
         if j % shard["of"] != shard["i"]:
@@ -232,4 +348,6 @@ def run(shard, seed, ctx):
 
 
 def replay(kind, case):
+    if kind == "placed":
+        return placed_body(case)[2]
     return run_cell(tuple(case["cell"]), case["doc"])[1]
